@@ -168,10 +168,13 @@ def answer (line : String) : String :=
         -- z=<implicit timezone of the context in minutes>, absent or `_` = none
         let zs := field fs "z"
         let itz : Option Int := if zs == "" || zs == "_" then none else int? zs
+        -- c=ci: the parser's default collation is html-ascii-case-insensitive; absent = Unicode codepoint
+        -- (`collation_codepoint`: then these are generalCmpCtx / valueCmpCtx / generalAllowedCtx / valueAllowedCtx)
+        let c : Coll := if field fs "c" == "ci" then .asciiCI else .codepoint
         if k == "G" then
-          s!"model={showR (generalCmpCtx itz m op l r)} spec={showAllowed (EPV.CmpSpec.generalAllowedCtx itz m op l r)} trig={showTrig (EPV.CmpFind.trigGeneral m op l r)}"
+          s!"model={showR (generalCmpC c itz m op l r)} spec={showAllowed (EPV.CmpSpec.generalAllowedC c itz m op l r)} trig={showTrig (EPV.CmpFind.trigGeneral m op l r)}"
         else if k == "V" then
-          s!"model={showOR (valueCmpCtx itz m op l r)} spec={showAllowed (EPV.CmpSpec.valueAllowedCtx itz m op l r)} trig={showTrig (EPV.CmpFind.trigValue m op l r)}"
+          s!"model={showOR (valueCmpC c itz m op l r)} spec={showAllowed (EPV.CmpSpec.valueAllowedC c itz m op l r)} trig={showTrig (EPV.CmpFind.trigValue m op l r)}"
         else "bad-kind"
   | _, _ => "bad-line"
 
